@@ -51,7 +51,7 @@ func runC08(c *report.Ctx) {
 			}, ignore: map[string]bool{"handlerExecutionMutex": true}},
 		{pkg: "L/rapid", typ: "shutdownContext", ctors: []string{"L/rapid.newShutdownContext"}, resetRoots: []string{"L/rapid.shutdownContext.shutdown"},
 			ignore: map[string]bool{"shuttingDownMutex": true, "runtimeDomainExitedMutex": true, "agentsAwaitingExitMutex": true}},
-		{pkg: "L/rapidcore", typ: "Server", ctors: []string{"L/rapidcore.NewServer"}, resetRoots: []string{"L/rapidcore.Server.Reset$1", "L/rapidcore.Server.Reset"},
+		{pkg: "L/rapidcore", typ: "Server", ctors: []string{"L/rapidcore.NewServer"}, resetRoots: []string{"L/rapidcore.Server.Reset"},
 			exempt: map[string]string{
 				"InternalStateGetter": "wiring, set once at start-up",
 				"sandboxContext":      "wiring, set once at start-up",
